@@ -287,3 +287,46 @@ fn verif_checker_oracle() {
         }
     }
 }
+
+// ---- simulation: what a trace reports must be a genuine witness (validity only; a simulation is not exhaustive) ----
+fn check_simulation(g: &G, seed: u64) {
+    let tag = format!("[simulation seed={} model={:?}]", seed, g);
+    let c = g.clone().checker().threads(1).target_state_count(400).spawn_simulation(seed, UniformChooser).join();
+    for (i, (kind, tbl)) in g.props.iter().enumerate() {
+        let p = match c.discoveries().get(NAMES[i]) { Some(p) => p.clone().into_vec(), None => continue };
+        if p.is_empty() || !g.inits.contains(&p[0].0) { fail(format!("C03 simulation: path {:?} does not start in an initial state {}", p, tag)); }
+        for w in 0..p.len() {
+            if !g.inside[p[w].0] { fail(format!("C03 simulation: path {:?} leaves the boundary {}", p, tag)); }
+            if w + 1 < p.len() {
+                match p[w].1 {
+                    Some(a) if a < g.edges[p[w].0].len() && g.edges[p[w].0][a] == Some(p[w + 1].0) => {}
+                    _ => fail(format!("C03 simulation: path {:?} step {} is not a transition of the model {}", p, w, tag)),
+                }
+            }
+        }
+        let last = p[p.len() - 1].0;
+        match kind {
+            0 => if tbl[last] { fail(format!("C03 simulation: always-counterexample {:?} ends in a state that satisfies the property {}", p, tag)); },
+            2 => if !tbl[last] { fail(format!("C03 simulation: sometimes-example {:?} ends in a state that does not satisfy the property {}", p, tag)); },
+            _ => {
+                if p.iter().any(|(s, _)| tbl[*s]) { fail(format!("C03 simulation: eventually-counterexample {:?} for {} contains a state that satisfies the condition {}", p, NAMES[i], tag)); }
+                let succ = g.succ(last);
+                let closes_cycle = succ.iter().any(|t| p.iter().any(|(s, _)| s == t));
+                if !succ.is_empty() && !closes_cycle {
+                    fail(format!("C03 simulation: eventually-counterexample {:?} for {} neither ends in a dead end nor closes a cycle: it can be extended inside the boundary to {:?} {}", p, NAMES[i], succ, tag));
+                }
+            }
+        }
+    }
+}
+
+#[test]
+fn verif_simulation_oracle() {
+    let t = true; let f = false;
+    // 0 -> 1 (outside the boundary) ; 0 -> 2 (inside, satisfies): every maximal in-boundary path satisfies the condition
+    let mut models = vec![G { inits: vec![0], edges: vec![vec![Some(1), Some(2)], vec![], vec![]], inside: vec![t, f, t],
+                              props: vec![(1, vec![f, f, t]), (0, vec![t; 3]), (2, vec![f; 3]), (0, vec![t; 3])] }];
+    let mut r = Lcg(0x51b_5eed);
+    for i in 0..120 { let g = random_graph(&mut r, i % 2 == 0); if g.inits.iter().all(|s| g.inside[*s]) { models.push(g); } }
+    for g in &models { for seed in 0..6 { check_simulation(g, seed); } }
+}
